@@ -369,10 +369,23 @@ def execute(case):
             rx.append(i)
         return rx, list(obj.substances.keys())
 
-    def check_all(idx, opname, failed=False):
+    seen_ids = set()
+    ORDER_FREE = ("add", "add_list", "subset", "split", "concat", "iadd", "iadd_list")
+
+    def check_all(idx, opname, failed=False, touched=()):
+        """Every live system against its model.  Systems that existed before the operation and were not its in-place
+        target must be exactly as they were (order included).  For systems an operation has just created or grown
+        (sums, subsets, parts) the statement fixes WHICH reactions and substances they hold, not their order: those are
+        compared as multiset / set and the observed order is adopted as the system's order from then on."""
         ok = True
         for sid, (obj, rx, subs) in live.items():
             orx, osubs = observe(obj)
+            free = (not failed) and opname.split(":")[0] in ORDER_FREE and (sid not in seen_ids or sid in touched)
+            if free and (orx != rx or osubs != subs) and sorted(orx) == sorted(rx) and sorted(osubs) == sorted(subs):
+                live[sid][1] = orx
+                live[sid][2][:] = osubs
+                bump("probe:order_adopted_from_implementation")
+                continue
             if orx != rx or osubs != subs:
                 ok = False
                 klass = "failed_op_mutated" if failed else "live_system_diverged"
@@ -390,6 +403,8 @@ def execute(case):
                 ok = False
                 viols.append(core.violation("reaction_mutated", "bank reaction %d changed by %s" % (i, opname), {"op": opname}, idx))
                 rsnaps[i] = rsnap(o)
+        seen_ids.clear()
+        seen_ids.update(live.keys())
         return ok
 
     def dangling(rx, subs):
@@ -558,7 +573,7 @@ def execute(case):
             rec["outcome"] = "ok"
             rec["result"] = [exp_rx, exp_subs]
             states.add((kind, "ok", min(len(exp_rx), 6), op["a"] == op["b"], bool(set(A[2]) & set(B[2]))))
-            check_all(idx, kind)
+            check_all(idx, kind, touched=(op["a"],) if kind == "iadd" else ())
             hist.append(rec)
             continue
 
@@ -593,7 +608,7 @@ def execute(case):
             rec["outcome"] = "ok"
             rec["result"] = [exp_rx, list(A[2])]
             states.add((kind, "ok", min(len(exp_rx), 6), len(rx), bool(op.get("as_iter"))))
-            check_all(idx, kind)
+            check_all(idx, kind, touched=(op["a"],) if kind == "iadd_list" else ())
             hist.append(rec)
             continue
 
